@@ -367,6 +367,11 @@ func (g *FnGen) execSlice(s *State, x *ssa.Slice) {
 		}
 		g.panicIf(s, or(app("<", lo, "0"), app("<", hi, lo), app(">", hi, n)), "slice-bounds")
 		if isByteSlice(x.Type()) {
+			if arr.Len() == 0 {
+				// T{} of a byte-slice type: the empty byte string
+				g.vals[x] = &Val{term: g.c.reg.strLit("")}
+				return
+			}
 			panic(genErr("byte array to slice not supported"))
 		}
 		g.vals[x] = &Val{term: g.bind("sl", "Slice", app("mk-slice", a.term, lo, app("-", hi, lo), app("-", n, lo)))}
